@@ -262,6 +262,26 @@ def run(tier):
                     if U.discipline_sort_key(disc(x)) == U.discipline_sort_key(disc(y)) and pos[id(x)] > pos[id(y)]:
                         acc.bad('sorter-not-stable', dict(disciplines=[pool[i] for i in combo]), 'equal keys reordered')
                         break
+    # the attr argument: the same records under another attribute / key name
+    class Ev(object):
+        def __init__(self, d):
+            self.event = d
+            self.discipline = 'JT'          # an unrelated value under the default name must not matter
+    for combo in itertools.product(range(len(pool)), repeat=2):
+        for kind in ('obj', 'dict', 'ns', 'mixed'):
+            acc.n += 1
+            mk = {'obj': lambda d, i: Ev(d), 'dict': lambda d, i: dict(event=d, discipline='JT'), 'ns': lambda d, i: types.SimpleNamespace(event=d),
+                  'mixed': lambda d, i: Ev(d) if i % 2 else dict(event=d)}[kind]
+            things = [mk(pool[i], pos) for pos, i in enumerate(combo)]
+            ev_of = lambda t: t.get('event') if isinstance(t, dict) else t.event
+            try:
+                out = U.sort_by_discipline(list(things), attr='event')
+            except Exception as e:
+                acc.bad('sort_by_discipline-raises:%s' % type(e).__name__, dict(disciplines=[pool[i] for i in combo], attr='event', records=kind), repr(e))
+                continue
+            ks = [U.discipline_sort_key(ev_of(t)) for t in out]
+            if sorted(map(id, out)) != sorted(map(id, things)) or ks != sorted(ks):
+                acc.bad('sorter-ignores-attr-argument', dict(disciplines=[pool[i] for i in combo], attr='event', records=kind), 'keys %r' % (ks,))
     merge(rep, [acc.pack()], part='field order and sorter lists')
     c = rep.coverage
     c['language_strings'] = len(L)
